@@ -417,6 +417,19 @@ def worker(args):
     return out
 
 
+def replay_items(xitems, procs=16):
+    """Run explicit numbax_extra items in a spawn pool."""
+    import multiprocessing as mp
+
+    total = {"records": [], "calls": 0, "compiled": 0, "extra": len(xitems)}
+    with mp.get_context("spawn").Pool(min(procs, max(1, len(xitems)))) as pool:
+        for out in pool.imap_unordered(worker, [("extra", [x]) for x in xitems], chunksize=1):
+            total["records"] += out["records"]
+            total["calls"] += out["calls"]
+            total["compiled"] += out["compiled"]
+    return total
+
+
 def plan_jobs(cases, tier, seed=0):
     """Group cases by operation and pick signature/flavor combinations to compile."""
     by = {}
